@@ -17,7 +17,8 @@ cull`) and `main.py` (`get`, `_init`, `_SO_loadValue`, `_SO_setValue`, `expire`,
 * `expire()` of an instance drops its cached values **and removes its key from its connection's cache**
   (the C04 finding the C07 findings are knock-ons of);
 * `commit` expires the parent instance found by `tryGet` for every key in the transaction cache's
-  `allIDs()` (strong + alive weak) and in the deleted log; `rollback` expires the transaction-side
+  `allIDs()` (strong + alive weak), in the deleted log and in the updated log (`Transaction._SO_update` records every
+  row written through the transaction); `rollback` expires the transaction-side
   instances found by `tryGet` for `allIDs()`; `close`/`rollback` make the transaction obsolete.
 
 A key stands for (class, id): `clsOf k = k / 1000`.
@@ -125,13 +126,15 @@ structure St where
   obsolete : Bool
   /-- `_deletedCache` -/
   del : List Key
+  /-- `_updatedCache`: the rows written through `Transaction._SO_update` since the last commit / rollback / close -/
+  upd : List Key
   /-- keys ever inserted, ascending (enumeration domain of `select`) -/
   dom : List Key
   p : Conn
   t : Conn
 
 def init (dc : Bool) : St :=
-  ⟨dc, fun _ => none, fun _ => none, false, false, [], [], Conn.empty, Conn.empty⟩
+  ⟨dc, fun _ => none, fun _ => none, false, false, [], [], [], Conn.empty, Conn.empty⟩
 
 def St.conn (s : St) : Side → Conn
   | .P => s.p
@@ -241,8 +244,9 @@ def opSet (s : St) (sd : Side) (j : Nat) (col : Col) (v : Val) : St × Out :=
     ({ s with db := upd s.db (s.p.insts j).key ((s.db (s.p.insts j).key).map fun r => upd r col v),
               p := s.p.modify j fun i => { i with cached := upd i.cached col (some v), loaded := true } }, .ok)
   | .T =>
-    if s.obsolete then (s, .assert) else
-    ({ s with lock := true,
+    -- `Transaction._SO_update` logs the row first, then the UPDATE goes through `assertActive`
+    if s.obsolete then ({ s with upd := (s.t.insts j).key :: s.upd }, .assert) else
+    ({ s with lock := true, upd := (s.t.insts j).key :: s.upd,
               ws := (match s.view .T (s.t.insts j).key with
                      | some r => upd s.ws (s.t.insts j).key (some (some (upd r col v)))
                      | none => s.ws),
@@ -303,8 +307,8 @@ def Conn.purge (c : Conn) (cls : Nat) : Conn :=
       | some j => if k / 1000 = cls ∧ c.alive j = false then none else some j
       | none => none }
 
-/-- the transaction's `allIDs()` of the key's class cache, plus the deleted log -/
-def St.reached (s : St) (k : Key) : Bool := s.t.inAllIDs s.dc k || s.del.contains k
+/-- the transaction's `allIDs()` of the key's class cache, plus the deleted log, plus the updated log -/
+def St.reached (s : St) (k : Key) : Bool := s.t.inAllIDs s.dc k || s.del.contains k || s.upd.contains k
 
 /-- the expiry loop of `commit` on the parent side (set semantics: the loop body touches one key) -/
 def St.commitExpire (s : St) : Conn :=
@@ -318,7 +322,7 @@ def St.commitExpire (s : St) : Conn :=
 def opCommit (s : St) (close : Bool) : St × Out :=
   if s.obsolete then (s, .ok) else
   ({ s with db := s.view .T, ws := fun _ => none, lock := false, p := s.commitExpire,
-            obsolete := close, del := if close then [] else s.del }, .ok)
+            obsolete := close, del := if close then [] else s.del, upd := [] }, .ok)
 
 /-- the expiry loop of `rollback` on the transaction side -/
 def St.rollbackExpire (s : St) : Conn :=
@@ -330,7 +334,7 @@ def St.rollbackExpire (s : St) : Conn :=
 
 def opRollback (s : St) : St × Out :=
   if s.obsolete then (s, .ok) else
-  ({ s with ws := fun _ => none, lock := false, t := s.rollbackExpire, obsolete := true, del := [] }, .ok)
+  ({ s with ws := fun _ => none, lock := false, t := s.rollbackExpire, obsolete := true, del := [], upd := [] }, .ok)
 
 def opBegin (s : St) : St × Out :=
   if s.obsolete then ({ s with obsolete := false }, .ok) else (s, .assert)
